@@ -149,6 +149,8 @@ def run(module, cfg, workers=8, simulate=None, depth=None, env=None, extra=None,
         rc, out = 124, (ex.stdout or b"").decode("utf-8", "replace") if isinstance(ex.stdout, bytes) else (ex.stdout or "")
         out += "\nTIMEOUT"
     res = TlcResult(rc, out, time.time() - t0)
+    if simulate and rc == 0 and "Error:" not in out:
+        res.ok = True                      # simulation mode prints no "No error has been found"
     if not res.ok and rc != 124 and "Error:" not in out and "violated" not in out and not env_retry:
         # the JVM did not get as far as a verdict (could not start / was killed under memory pressure): one retry
         shutil.rmtree(meta, ignore_errors=True)
